@@ -465,16 +465,70 @@ func (P *Prog) sortLessProver(path []ast.Node, info *types.Info, X, I ast.Expr) 
 			break
 		}
 		call, ok := path[i+1].(*ast.CallExpr)
-		if !ok || len(call.Args) != 2 || call.Args[1] != ast.Expr(fl) {
-			break
-		}
-		switch qualifiedCallee(info, call) {
-		case "sort.Slice", "sort.SliceStable", "sort.SliceIsSorted":
-		default:
-			return "", false
-		}
-		if idExpr(info, call.Args[0]) != idExpr(info, X) {
-			return "", false
+		if !ok {
+			// `less := func(i, j int) bool {…}` handed to sort.Slice* by name: every use of the
+			// variable is the comparator argument of a sort over the same slice
+			as, isAssign := path[i+1].(*ast.AssignStmt)
+			if !isAssign || len(as.Lhs) != 1 || len(as.Rhs) != 1 || as.Rhs[0] != ast.Expr(fl) {
+				break
+			}
+			lid, isId := as.Lhs[0].(*ast.Ident)
+			if !isId {
+				break
+			}
+			obj := info.Defs[lid]
+			if obj == nil {
+				break
+			}
+			var encl ast.Node
+			for _, n2 := range path[i+1:] {
+				if _, isFn := n2.(*ast.FuncDecl); isFn {
+					encl = n2
+				}
+				if _, isFn := n2.(*ast.FuncLit); isFn && encl == nil {
+					encl = n2
+				}
+			}
+			if encl == nil {
+				break
+			}
+			uses, good := 0, true
+			ast.Inspect(encl, func(n2 ast.Node) bool {
+				c2, isCall := n2.(*ast.CallExpr)
+				if isCall && len(c2.Args) == 2 {
+					if a1, isId := c2.Args[1].(*ast.Ident); isId && info.Uses[a1] == obj {
+						switch qualifiedCallee(info, c2) {
+						case "sort.Slice", "sort.SliceStable", "sort.SliceIsSorted":
+							if idExpr(info, c2.Args[0]) == idExpr(info, X) {
+								uses++
+								return true
+							}
+						}
+						good = false
+					}
+				}
+				if id2, isId := n2.(*ast.Ident); isId && info.Uses[id2] == obj {
+					uses--
+				}
+				return true
+			})
+			// every use counted +1 as a sort argument and -1 as an identifier: balanced means no other use
+			if !good || uses != 0 {
+				break
+			}
+			call = nil
+		} else {
+			if len(call.Args) != 2 || call.Args[1] != ast.Expr(fl) {
+				break
+			}
+			switch qualifiedCallee(info, call) {
+			case "sort.Slice", "sort.SliceStable", "sort.SliceIsSorted":
+			default:
+				return "", false
+			}
+			if idExpr(info, call.Args[0]) != idExpr(info, X) {
+				return "", false
+			}
 		}
 		if fl.Type.Params == nil {
 			return "", false
